@@ -31,9 +31,9 @@ var roleTypes = map[string]string{
 	"FeatureLocal.responseMsgCallback":        "map[model.MsgCounterType][]func(result api.ResponseMessage)",
 	"FeatureLocal.resultCallbacks":            "[]func(result api.ResponseMessage)",
 	"Sender.msgNum":                           "uint64",
-	"Sender.reqMsgCache":                      "spine.reqMsgCacheData",
+	"Sender.reqMsgCache":                      "spine.reqMsgCacheData|~map[model.MsgCounterType]string",
 	"Sender.datagramNotifyCache":              "*lrucache.LRUCache[model.MsgCounterType, model.DatagramType]",
-	"events.handlers":                         "[]spine.eventHandlerItem",
+	"events.handlers":                         "[]spine.eventHandlerItem|~[]struct",
 	"HeartbeatManager.stopHeartbeatC":         "chan struct{}",
 	"HeartbeatManager.heartBeatNum":           "uint64",
 	"HeartbeatManager.heartBeatTimeout":       "*model.DurationType",
@@ -82,10 +82,32 @@ func F(role string) string {
 	}
 	found := ""
 	n := 0
-	for i := 0; i < st.NumFields(); i++ {
-		if types.TypeString(st.Field(i).Type(), roleQualifier) == want {
-			found = st.Field(i).Name()
-			n++
+	// alternatives separated by "|"; "~T" matches the underlying type (an unexported named type may be renamed),
+	// "~[]struct" a slice of some struct type
+	for _, alt := range strings.Split(want, "|") {
+		if n > 0 {
+			break
+		}
+		for i := 0; i < st.NumFields(); i++ {
+			ft := st.Field(i).Type()
+			match := false
+			switch {
+			case alt == "~[]struct":
+				if sl, ok := ft.Underlying().(*types.Slice); ok {
+					_, match = sl.Elem().Underlying().(*types.Struct)
+				}
+			case strings.HasPrefix(alt, "~"):
+				match = types.TypeString(ft.Underlying(), roleQualifier) == alt[1:]
+			default:
+				match = types.TypeString(ft, roleQualifier) == alt
+			}
+			if match {
+				found = st.Field(i).Name()
+				n++
+			}
+		}
+		if n != 1 {
+			n, found = 0, ""
 		}
 	}
 	if n == 1 {
